@@ -62,8 +62,7 @@ theorem cardLoop_err (ts : List Bool) (s : St) (e : Exc) (h : (cardLoop ts s).1 
 /-- exceptions that can leave a step; `V`: when a ValueError is possible -/
 def ErrPost (V : Prop) (e : Exc) (s' : St) : Prop :=
   e = .io 5 ∨ e = .keyboardInterrupt ∨ e = .unsupportedTarget ∨ (e = .value ∧ V) ∨
-  ((e = .systemExit ∧ s'.log.getLast? = some (.call .llcRun .sysExit)) ∨
-   (e = .type_ ∧ ∃ f, TypeErrTarget f ∧ s'.log.getLast? = some (.call .activate (.found f))))
+  (e = .systemExit ∧ s'.log.getLast? = some (.call .llcRun .sysExit))
 
 theorem ErrPost.dev {V : Prop} {e : Exc} {s' : St} (h : e = .io 5 ∨ e = .keyboardInterrupt) : ErrPost V e s' := by
   rcases h with h | h
@@ -106,14 +105,10 @@ theorem rdwrStep_err (o : RdwrOpts) (ts : List Bool) (s : St) (e : Exc) (h : (rd
         cases a with
         | error e3 =>
           simp only at h; cases h
-          rcases hact e rfl with hd | ⟨h1, h2, h3⟩
-          · rcases hd with hd | hd | hd
-            · exact Or.inl hd
-            · exact Or.inr (Or.inl hd)
-            · exact Or.inr (Or.inr (Or.inl hd))
-          · refine Or.inr (Or.inr (Or.inr (Or.inr (Or.inr ⟨h1, f, h2, ?_⟩))))
-            simp only at h3
-            rw [h3]; simp [List.getLast?_append]
+          rcases hact e rfl with hd | hd | hd
+          · exact Or.inl hd
+          · exact Or.inr (Or.inl hd)
+          · exact Or.inr (Or.inr (Or.inl hd))
         | ok ot =>
         cases ot with
         | none => simp at h
@@ -184,7 +179,7 @@ theorem llcpRole_err (o : LlcpOpts) (ini : Bool) (ts : List Bool) (s : St) (e : 
       | kbd => simp only at h; cases h; exact Or.inr (Or.inl rfl)
       | sysExit =>
         simp only at h; cases h
-        refine Or.inr (Or.inr (Or.inr (Or.inr (Or.inl ⟨rfl, ?_⟩))))
+        refine Or.inr (Or.inr (Or.inr (Or.inr ⟨rfl, ?_⟩)))
         simp [List.getLast?_append]
       | _ => simp at h
   | ioError => simp only at h; cases h; exact Or.inl rfl
@@ -433,9 +428,7 @@ theorem startupPhase_live (o : Opts) (s0 : St) :
 theorem connect_raised (o : Opts) (env : List Ans) (ts : List Bool) (e : Exc)
     (h : (connect o env ts).1 = .raised e) :
     (e = .type_ ∧ NonIterableStartup o) ∨ (e = .value ∧ OptsV o) ∨
-    (e = .systemExit ∧ (connect o env ts).2.log.getLast? = some (.call .llcRun .sysExit)) ∨
-    (e = .type_ ∧ ∃ f, TypeErrTarget f ∧
-      (connect o env ts).2.log.getLast? = some (.call .activate (.found f))) := by
+    (e = .systemExit ∧ (connect o env ts).2.log.getLast? = some (.call .llcRun .sysExit)) := by
   obtain ⟨⟨k, hk⟩, _⟩ := startupPhase_mon o env
   obtain ⟨hlive, herr⟩ := startupPhase_live o (St.init env)
   unfold connect at h ⊢
